@@ -269,9 +269,21 @@ class Interp:
             if a[1] not in BUILTINS or BUILTINS[a[1]] != a[2]:
                 raise ModelError('XPST0017')
             return (_builtin(a[1], a[2]),)
-        if t == 'bi':       # direct call of a builtin: ['bi', name, arg...]
+        if t == 'bi':       # direct call of a builtin: ['bi', name, arg...]; an arg ['?'] makes a partial application
             f = _builtin(a[1], len(a) - 2)
-            return f.call([self.ev(x, env) for x in a[2:]])
+            args = [None if x[0] == '?' else self.ev(x, env) for x in a[2:]]
+            if any(x is None for x in args):
+                holes = [i for i, x in enumerate(args) if x is None]
+                self.flags.add('partial')
+                self.flags.add('builtin-partial')
+
+                def bimpl(rest, f=f, args=args, holes=holes):
+                    full = list(args)
+                    for i, v in zip(holes, rest):
+                        full[i] = v
+                    return f.call(full)
+                return (Fn(len(holes), bimpl, 'builtin-partial'),)
+            return f.call(args)
         if t == 'call':
             f = one_fn(self.ev(a[1], env))
             args = [None if x[0] == '?' else self.ev(x, env) for x in a[2]]
@@ -288,6 +300,9 @@ class Interp:
                         full[i] = v
                     return f.call(full)
                 self.flags.add('partial')
+                if f.name in ('builtin-partial', 'partial-of-builtin-partial'):
+                    self.flags.add('partial-of-builtin-partial')
+                    return (Fn(len(holes), pimpl, 'partial-of-builtin-partial', f.params),)
                 return (Fn(len(holes), pimpl, 'partial', f.params),)
             return self.call(f, args, env)
         if t == 'for-each':
@@ -396,7 +411,7 @@ def render(a):
     if t == 'named':
         return '%s#%d' % (a[1], a[2])
     if t == 'bi':
-        return '%s(%s)' % (a[1], ', '.join(r(x) for x in a[2:]))
+        return '%s(%s)' % (a[1], ', '.join('?' if x[0] == '?' else r(x) for x in a[2:]))
     if t == 'call':
         f = r(a[1])
         if a[1][0] in ('fn', 'named'):
@@ -691,6 +706,21 @@ class Gen:
                     args.append(self.gen(ty, env, d - 2))
             inner = self.gen_F(ftype(wide2, ret), env, d - 1)
             return ['call', inner, args]
+        if k == 7 and not self.no_partial and not self.scope_only:
+            # partial application of a built-in function written with the static call syntax
+            templ = {
+                (('S',), 'S'): [('remove', ['?', 'I']), ('insert-before', ['?', 'I', 'S']), ('reverse', ['?']), ('tail', ['?'])],
+                (('I',), 'S'): [('remove', ['S', '?']), ('index-of', ['S', '?']), ('insert-before', ['S', '?', 'S'])],
+                (('S',), 'I'): [('count', ['?']), ('sum', ['?'])],
+                (('I',), 'I'): [('abs', ['?'])],
+                (('S', 'I'), 'S'): [('remove', ['?', '?']), ('index-of', ['?', '?']), ('insert-before', ['?', '?', 'S'])],
+                (('S', 'I', 'S'), 'S'): [('insert-before', ['?', '?', '?'])],
+                (('S', 'S'), 'S'): [('insert-before', ['?', 'I', '?'])],
+            }.get((tuple(ptypes), ret))
+            if templ:
+                self.features.add('builtin-partial')
+                name, spec = r.choice(templ)
+                return ['bi', name] + [['?'] if x == '?' else self.gen(x, env, d - 1) for x in spec]
         if k == 4:
             named = {(('I',), 'I'): ['abs'], (('S',), 'I'): ['count', 'sum'], (('S',), 'S'): ['reverse', 'tail'],
                      (('S', 'I'), 'S'): ['remove', 'index-of'], (('S', 'I', 'S'), 'S'): ['insert-before']}
